@@ -16,6 +16,7 @@ type flowBuilder struct {
 	filterTree         internaltypes.FilterTreeI
 	flowReps           map[string]internaltypes.FlowRepI
 	foreignRoot        *EntryPoint
+	incorporating      map[string]struct{} // flows being incorporated right now (reference cycle guard)
 	nodeBuilder        *graphNodeBuilder
 	processorManager   *processors.ProcessorManager
 	resourceManagement *resources.ResourceManagement
@@ -294,6 +295,17 @@ func (fb *flowBuilder) incorporateFlow(flowName string, targetFlowDir *FlowDirec
 	if !exists {
 		return fmt.Errorf("flow '%s' not found", flowName)
 	}
+
+	// A flow that refers to itself, or two flows that refer to each other, would
+	// be incorporated without end (the recursion overflowed the stack).
+	if _, cycle := fb.incorporating[flowName]; cycle || flowName == targetFlowDir.flowName {
+		return fmt.Errorf("circular reference to flow '%s'", flowName)
+	}
+	if fb.incorporating == nil {
+		fb.incorporating = map[string]struct{}{}
+	}
+	fb.incorporating[flowName] = struct{}{}
+	defer delete(fb.incorporating, flowName)
 
 	// build connections from the source flow and add all to target FlowDirection
 	connections := flowRep.GetFlow().GetFlowConnections(targetFlowDir.flowType)
